@@ -66,6 +66,10 @@ def seqField (field : String) (v : Int) (q : SeqSet) : SeqSet :=
   else if field = "jump_target" then { q with jump_target := v }
   else { q with goto := v }
 
+def setSeqSettings (s : Sequence) (pos w n j g : Int) : Sequence :=
+  let q : SeqSet := ⟨w, n, 0, j, g⟩
+  { s with sequencing := Dict.upsert s.sequencing pos q }
+
 def step (p : Pool) (op : Json) : Pool × Json :=
   let o := fStr op "op"
   -- blueprints ------------------------------------------------------------
@@ -184,6 +188,9 @@ def step (p : Pool) (op : Json) : Pool × Json :=
       (fBool op "orderIsInt") (fVal op "f_cut") (fVal op "tau"))
   else if o = "sq.setSeq" then
     withSq p op (fun s => s.setSequencing (fInt op "pos") (seqField (fStr op "field") (fInt op "v")))
+  else if o = "sq.setSeqSettings" then
+    -- the deprecated `setSequenceSettings(pos, wait, nreps, jump, goto)` creates or replaces the entry
+    withSq p op (fun s => ⟨setSeqSettings s (fInt op "pos") (fInt op "wait") (fInt op "nreps") (fInt op "jump") (fInt op "goto"), none⟩)
   else if o = "sq.setName" then withSq p op (fun s => ⟨{ s with name := fStr op "name" }, none⟩)
   else if o = "sq.check" then readSq p op (fun s => s.checkConsistency) (jExcept Json.bool)
   else if o = "sq.channels" then readSq p op (fun s => s.channels) (jExcept (jList jChan))
